@@ -2,7 +2,8 @@
 // The returned tree must compute `A = A op B` with the ORIGINAL operator applied to the (re-read) left operand and the
 // UNCONVERTED right operand, so that the usual arithmetic conversions between A and B are applied by add_type exactly
 // as for the plain form (C01.1), and the result is converted back to A's type by the assignment.
-// FORM 0: plain lvalue; 1: member lvalue (bit-field safe form); 2: _Atomic lvalue (compare-exchange retry loop).
+// FORM 0: plain lvalue; 1: member lvalue (bit-field safe form); 2: _Atomic lvalue (compare-exchange retry loop);
+// 3: _Atomic member lvalue (must take the atomic form, too).
 #include "verif.h"
 #include "parse.c"
 #ifndef KIND
@@ -21,7 +22,10 @@ void harness(void) {
   a.kind = ND_VAR; a.var = &va; a.ty = &TA; a.tok = &tok;
   b.kind = ND_NUM; b.ty = &TB; b.tok = &tok; b.val = 2;
   bin.kind = KIND; bin.tok = &tok; bin.rhs = &b;
-#if FORM == 1
+#if FORM == 1 || FORM == 3
+#if FORM == 3
+  TA.is_atomic = 1;          /* an _Atomic member: op= on it is an atomic read-modify-write like on any atomic object */
+#endif
   Obj vs = {0}; vs.ty = &TS; vs.is_local = 1; vs.name = "s";
   s.kind = ND_VAR; s.var = &vs; s.ty = &TS; s.tok = &tok;
   mem.ty = &TA; mem.offset = 4;
